@@ -12,6 +12,7 @@ package vrt
 
 import (
 	"fmt"
+	"os"
 	"runtime"
 	"sort"
 	"strings"
@@ -30,16 +31,17 @@ type Op struct {
 }
 
 type Thread struct {
-	spin    int  // consecutive operations of this thread that wrote nothing
-	idleWakes int // times it was woken from a sleep / a ticker wait while nothing else could run (see idleRounds)
-	yielded bool // it offered its turn and nobody else has made a step since: not offered to the explorer
-	ID      int
-	Name    string
-	wake    chan struct{}
-	pend    *Op
-	done    bool
-	daemon  bool
-	hash    uint64 // happens-before hash of this thread's history
+	spin      int  // consecutive operations of this thread that wrote nothing
+	held      bool // spawned by the set-up: starts when the set-up has returned
+	idleWakes int  // times it was woken from a sleep / a ticker wait while nothing else could run (see idleRounds)
+	yielded   bool // it offered its turn and nobody else has made a step since: not offered to the explorer
+	ID        int
+	Name      string
+	wake      chan struct{}
+	pend      *Op
+	done      bool
+	daemon    bool
+	hash      uint64 // happens-before hash of this thread's history
 	// call/return stamps of the API call in progress (see Begin/End)
 	pendingInv bool
 	beginClock int
@@ -71,9 +73,13 @@ var abortSentinel = abortT{}
 
 // Sched is one execution.
 type Sched struct {
-	sends []sendCount // completed sends per channel (see SendsDone)
-	timeChans []unsafe.Pointer // see MarkTimeChan
-	noted []unsafe.Pointer // objects created by rewritten code, in creation order (see NoteObj)
+	sends           []sendCount // completed sends per channel (see SendsDone)
+	prologue        bool        // the scenario's set-up is running (as model thread "setup"): default choices only, nothing recorded
+	afterPrologue   bool        // the next scheduling decision is the first one of the concurrent phase (free)
+	proSteps        int
+	unheld          int              // threads that exist and are not held (set-up phase fast path)
+	timeChans       []unsafe.Pointer // see MarkTimeChan
+	noted           []unsafe.Pointer // objects created by rewritten code, in creation order (see NoteObj)
 	threads         []*Thread
 	cur             *Thread
 	prefix          []int
@@ -155,7 +161,12 @@ func (s *Sched) objID(p unsafe.Pointer) int {
 //
 //go:norace
 func (s *Sched) Spawn(name string, f func()) *Thread {
-	return s.spawn(name, f, false)
+	t := s.spawn(name, f, false)
+	if s.prologue {
+		t.held = true
+		s.unheld--
+	}
+	return t
 }
 
 //go:norace
@@ -169,6 +180,7 @@ func (s *Sched) spawn(name string, f func(), daemon bool) *Thread {
 		s.cur.hash = mix(s.cur.hash, 0x5a5a)
 	}
 	s.threads = append(s.threads, t)
+	s.unheld++
 	s.wg.Add(1)
 	raceGo(func() { s.runThread(t, f) })
 	return t
@@ -241,7 +253,23 @@ func (s *Sched) runThread(t *Thread, f func()) {
 	f()
 	returned = true
 	t.done = true
+	if t.Name == setupName && s.prologue {
+		s.endPrologue()
+	}
 	s.switchFrom(t)
+}
+
+const setupName = "set-up"
+
+// endPrologue: the scenario's set-up has returned; the threads it spawned may start.
+//
+//go:norace
+func (s *Sched) endPrologue() {
+	s.prologue = false
+	s.afterPrologue = true
+	for _, x := range s.threads {
+		x.held = false
+	}
 }
 
 func trimStack(st string) string {
@@ -289,7 +317,7 @@ func (s *Sched) finish() {
 
 //go:norace
 func (s *Sched) isReady(t *Thread) bool {
-	if t.done || t.pend == nil {
+	if t.done || t.pend == nil || t.held {
 		return false
 	}
 	if t.handed {
@@ -314,6 +342,9 @@ func (s *Sched) choose(n int, runEnabled, data bool) int {
 
 //go:norace
 func (s *Sched) chooseC(n int, runEnabled, data bool, firstCostly int) int {
+	if s.prologue {
+		return 0 // the set-up phase is one deterministic run: default answers, nothing recorded
+	}
 	c := 0
 	i := len(s.Points)
 	if i < len(s.prefix) {
@@ -379,8 +410,17 @@ func (s *Sched) switchFrom(t *Thread) {
 		}
 		panic(abortSentinel)
 	}
-	s.Steps++
-	if s.Steps > s.maxSteps {
+	if s.prologue {
+		s.proSteps++
+		// fast path: the set-up thread is the only thread that exists (the ones it spawned are held):
+		// nothing to decide while its next operation is enabled
+		if s.unheld == 1 && !t.done && t.pend != nil && t.pend.ch == nil && (t.pend.Ready == nil || t.pend.Ready()) && s.proSteps < 200000000 {
+			return
+		}
+	} else {
+		s.Steps++
+	}
+	if s.Steps > s.maxSteps || s.proSteps > 200000000 {
 		s.Livelock = true
 		s.finish()
 		if t.done {
@@ -481,7 +521,7 @@ func (s *Sched) switchFrom(t *Thread) {
 		}
 		panic(abortSentinel)
 	}
-	if s.visit != nil && len(s.Points) >= len(s.prefix) {
+	if s.visit != nil && !s.prologue && len(s.Points) >= len(s.prefix) {
 		if !s.visit(s.stateKey(runEnabled), s.preempt) {
 			s.Pruned = true
 			s.finish()
@@ -494,13 +534,16 @@ func (s *Sched) switchFrom(t *Thread) {
 	n := enabled[0]
 	if len(enabled) > 1 {
 		fc := 1 // switching away from a thread that can continue is a preemption
-		if !runEnabled && !s.delay {
+		if !runEnabled && (!s.delay || s.afterPrologue) {
 			fc = ordinary // a forced switch is free among ordinary threads; an environment event costs
 			if ordinary == 0 {
 				fc = len(enabled) // nothing else can run: the environment event is forced
 			}
 		}
 		n = enabled[s.chooseC(len(enabled), runEnabled, false, fc)]
+	}
+	if !s.prologue {
+		s.afterPrologue = false
 	}
 	if !busy && n.Name == "go" {
 		n.idleWakes++
@@ -601,7 +644,7 @@ func (s *Sched) executed(t *Thread, op *Op) {
 		}
 	}
 	t.hash = h
-	if s.tracing {
+	if s.tracing && !s.prologue {
 		s.Trace = append(s.Trace, fmt.Sprintf("T%d %s #%d%s", t.ID, op.Kind, id, callerPos()))
 	}
 }
@@ -836,6 +879,10 @@ type RunConfig struct {
 	Delay bool
 }
 
+// SetupPassThrough selects the old set-up mode (the scenario body runs on the caller's goroutine before
+// any model thread exists, all primitives pass through to the real ones). VERIF_SETUP_PASSTHROUGH=1.
+var SetupPassThrough = os.Getenv("VERIF_SETUP_PASSTHROUGH") != ""
+
 // Run performs one execution: body spawns the model threads (sequential set-up
 // first, in pass-through mode), then the concurrent phase runs to completion.
 func Run(cfg RunConfig, body func(s *Sched)) *Exec {
@@ -848,11 +895,19 @@ func Run(cfg RunConfig, body func(s *Sched)) *Exec {
 	closedKeep = closedKeep[:0]
 	resetGlobals()
 	notedSetup = notedSetup[:0]
-	inSetup = true
-	body(s)
-	inSetup = false
-	if len(s.threads) == 0 {
-		return &Exec{}
+	if SetupPassThrough {
+		inSetup = true
+		body(s)
+		inSetup = false
+		if len(s.threads) == 0 {
+			return &Exec{}
+		}
+	} else {
+		// the set-up runs as the first model thread: goroutines that the code under test starts during
+		// set-up calls (a janitor, a server goroutine that owns the state) are model threads from their
+		// first step, and live on into the concurrent phase under the scheduler's control
+		s.prologue = true
+		s.spawn(setupName, func() { body(s) }, false)
 	}
 	start(s)
 	<-s.fin
